@@ -137,6 +137,15 @@ func vCmdFile(name string, content []byte) {
 	}
 }
 
+// vCmdInPlace: the input image lives in the very file the output goes to
+// (conversion in place): flag inFlag names it.
+func vCmdInPlace(inFlag string, content []byte) {
+	if err := os.WriteFile(vCmdOutName, content, 0o644); err != nil {
+		panic(err)
+	}
+	vCmdFlag(inFlag, vCmdOutName)
+}
+
 func vCmdFlag(name, value string) {
 	vCmdArgs = append(vCmdArgs, "-"+name+"="+value)
 	os.Args = vCmdArgs
